@@ -398,9 +398,30 @@ fn percent_decoded_path(p: &str) -> Vec<u8> {
 
 /// Check one received request against the plan.  `absolute_form_base` is Some(base) when the
 /// request went to a forward proxy (target must be absolute-form).  Returns Err((class, msg)).
+#[derive(Clone, Copy, Debug, PartialEq, Eq)]
+pub enum BodyCheck {
+    /// only framing consistency (Content-Length == octets, single chunk terminator, never neither for a non-empty body)
+    FramingOnly,
+    /// framing consistency and equality with the caller's body
+    Equal,
+}
+
 pub fn check_request(plan: &ReqPlan, r: &ParsedRequest, extra_after: usize, method_override: Option<&str>, check_body: bool) -> Result<(), (String, String)> {
+    check_request_ex(plan, r, extra_after, method_override, if check_body { BodyCheck::Equal } else { BodyCheck::FramingOnly }, false).map(|_| ())
+}
+
+/// Returns the authority of an absolute-form target (None for origin-form).
+pub fn check_request_ex(
+    plan: &ReqPlan,
+    r: &ParsedRequest,
+    extra_after: usize,
+    method_override: Option<&str>,
+    body_check: BodyCheck,
+    absolute_form: bool,
+) -> Result<Option<String>, (String, String)> {
     let bk = plan.body_name();
-    let fail = |c: &str, m: String| Err((format!("{}:{}", c, bk), m));
+    let fail = |c: &str, m: String| -> Result<Option<String>, (String, String)> { Err((format!("{}:{}", c, bk), m)) };
+    let fail0 = |c: &str, m: String| -> Result<(), (String, String)> { Err((format!("{}:{}", c, bk), m)) };
     if extra_after > 0 {
         return fail("bytes-after-request", format!("{} bytes followed the end of the first request on the connection", extra_after));
     }
@@ -409,9 +430,23 @@ pub fn check_request(plan: &ReqPlan, r: &ParsedRequest, extra_after: usize, meth
         return fail("method-mismatch", format!("method {} != {}", r.method, want_method));
     }
     // target: origin-form path + query
-    let (tpath, tquery) = match r.target.split_once('?') {
+    let mut authority = None;
+    let origin_target: &str = if absolute_form {
+        let Some(rest) = r.target.strip_prefix("http://") else {
+            return fail("target-not-absolute-form", format!("target {:?} sent to a forward proxy", r.target));
+        };
+        let end = rest.find(|c| c == '/' || c == '?').unwrap_or(rest.len());
+        authority = Some(rest[..end].to_string());
+        &rest[end..]
+    } else {
+        r.target.as_str()
+    };
+    if origin_target.contains('#') {
+        return fail("fragment-in-target", format!("target {:?}", r.target));
+    }
+    let (tpath, tquery) = match origin_target.split_once('?') {
         Some((p, q)) => (p, q),
-        None => (r.target.as_str(), ""),
+        None => (origin_target, ""),
     };
     if !tpath.starts_with('/') {
         return fail("target-not-origin-form", format!("target {:?}", r.target));
@@ -478,9 +513,6 @@ pub fn check_request(plan: &ReqPlan, r: &ParsedRequest, extra_after: usize, meth
     if r.header_all("host").len() != 1 {
         return fail("host-count", format!("{} Host fields", r.header_all("host").len()));
     }
-    if !check_body {
-        return Ok(());
-    }
     // framing consistent with the body actually written
     let body = &r.body;
     match &r.framing {
@@ -495,6 +527,12 @@ pub fn check_request(plan: &ReqPlan, r: &ParsedRequest, extra_after: usize, meth
                 return fail("chunk-terminator", format!("{} zero-length chunks", r.zero_chunks));
             }
         }
+    }
+    if body_check == BodyCheck::FramingOnly {
+        if !body.is_empty() && r.framing == ReqFraming::None {
+            return fail("unframed-body", "non-empty body with neither Content-Length nor chunked".into());
+        }
+        return Ok(authority);
     }
     let expect_bytes = |want: &[u8]| -> Result<(), (String, String)> {
         if body != want {
@@ -512,26 +550,27 @@ pub fn check_request(plan: &ReqPlan, r: &ParsedRequest, extra_after: usize, meth
         }
         Ok(())
     };
-    match &plan.body {
+    let res: Result<(), (String, String)> = match &plan.body {
         BodySpec::None => expect_bytes(b""),
         BodySpec::Text(s) => expect_bytes(s.as_bytes()),
         BodySpec::Bytes(b) | BodySpec::File(b) => expect_bytes(b),
         BodySpec::Custom(c) => expect_bytes(&c.bytes()),
         BodySpec::Json(v) | BodySpec::JsonStreaming(v) => match serde_json::from_slice::<serde_json::Value>(body) {
             Ok(got) if got == *v => Ok(()),
-            Ok(_) => fail("body-mismatch", "JSON body decodes to a different value".into()),
-            Err(e) => fail("body-mismatch", format!("JSON body does not parse: {} ({} bytes: {:?})", e, body.len(), short(body))),
+            Ok(_) => fail0("body-mismatch", "JSON body decodes to a different value".into()),
+            Err(e) => fail0("body-mismatch", format!("JSON body does not parse: {} ({} bytes: {:?})", e, body.len(), short(body))),
         },
         BodySpec::Form(pairs) => {
             let got = mpref::decode_pairs(body);
             let want: Vec<(Vec<u8>, Vec<u8>)> = pairs.iter().map(|(k, v)| (k.as_bytes().to_vec(), v.as_bytes().to_vec())).collect();
             if norm(got) != norm(want) {
-                return fail("body-mismatch", format!("form body {:?} does not decode to the caller's pairs", short(body)));
+                return fail0("body-mismatch", format!("form body {:?} does not decode to the caller's pairs", short(body))).map(|_| None);
             }
             Ok(())
         }
         BodySpec::Multipart(f) => check_multipart(f, r).map_err(|(c, m)| (format!("{}:{}", c, bk), m)),
-    }
+    };
+    res.map(|_| authority)
 }
 
 pub fn expected_parts(f: &FormSpec) -> Vec<Part> {
